@@ -142,7 +142,7 @@ runs the check through `VERIF_REPO`, expects exit 1 and removes the copy.
 
 ### 7.5 Sensitivity: breaking changes seeded by independent sub-agents (`seeded/<name>/`)
 
-Eight rounds of twenty fresh sub-agents and a ninth of twelve (one per property and round) were given only the
+Eight rounds of twenty fresh sub-agents, a ninth of twelve and a tenth of eight (one per property and round) were given only the
 property text and a scratch git worktree under /tmp - nothing from /verif; in the later
 rounds also the one-line summaries of the earlier rounds' changes with the instruction to find
 something of a different kind - and asked for up to two plausible changes that break the
@@ -152,7 +152,7 @@ all 752 baseline tests pass with the change) and are kept with `patch.diff`, `de
 `meta.json`. ''' + str(total - missed) + ''' were caught by the quick tier as it stood when they arrived; **''' + str(missed) + ''' were
 missed and led to the strengthenings listed below**, after which all ''' + str(total) + ''' are caught by the
 quick tier of their own property (`tools/mutants.py --seeded`). Names `Cxx_n` are round 1,
-`Cxx_bn` round 2, `Cxx_cn` round 3 (which also suggested kinds of change: cooperating sites, configuration constants, numeric edge values, argument types, duck-typed streams, shared state between objects, half-updated objects after an error), `Cxx_dn` round 4 (kinds suggested: data-dependent numeric paths such as overflow and non-finite values, sizes beyond an internal block length, optional header fields, file-name conventions, resource handling such as memory maps, interactions of three parameters). Four round-4 seeds (C09_d1, C10_d1, C17_d1, C17_d2) met a working tree that I had already strengthened on my own; the committed checks of that moment missed them and they are counted as misses. Seeds are also re-run at VERIF_SEED 2 and 3; two (C06_c2, C14_b1) were caught at seed 1 but not at seed 3, so the lowered-threshold configurations were made five times more frequent and more extreme (down to 1e-6) and signal lengths on the frame-count boundaries (whole and half multiples of the shift, +-1) are now generated on purpose. `Cxx_en` is round 5, whose brief asked the agent to list the phrases of the statement that no earlier change had touched and to break one of those (25 seeds, 11 first missed - the highest miss rate since round 1, so the steer worked). `Cxx_fn` is round 6 (28 seeds, 11 first missed): the brief asked for cooperating edits, reordered operations, 'equivalent' library calls that differ on ties / empty input, text handling, path forms, aliased results. `Cxx_gn` is round 7 (28 seeds, 10 first missed), whose single theme was the *range* of what a statement quantifies over: unusual but valid dtypes, axis positions, counts, rates, filter orders, file types. `Cxx_hn` is round 8 (21 seeds, 14 first missed - the highest rate of all rounds), with two themes: a change that is right on the main route and wrong on an *alternative route* to the same behaviour (alias, mapping, half=True, in_place, scripted module, compressed stream), and *the third call* (right for every pair of operations, wrong for one order of three). `Cxx_in` is round 9 (12 agents, 12 seeds, 10 first missed): the brief described a harness that already varies everything in the lessons below and asked what it would still not look at.
+`Cxx_bn` round 2, `Cxx_cn` round 3 (which also suggested kinds of change: cooperating sites, configuration constants, numeric edge values, argument types, duck-typed streams, shared state between objects, half-updated objects after an error), `Cxx_dn` round 4 (kinds suggested: data-dependent numeric paths such as overflow and non-finite values, sizes beyond an internal block length, optional header fields, file-name conventions, resource handling such as memory maps, interactions of three parameters). Four round-4 seeds (C09_d1, C10_d1, C17_d1, C17_d2) met a working tree that I had already strengthened on my own; the committed checks of that moment missed them and they are counted as misses. Seeds are also re-run at VERIF_SEED 2 and 3; two (C06_c2, C14_b1) were caught at seed 1 but not at seed 3, so the lowered-threshold configurations were made five times more frequent and more extreme (down to 1e-6) and signal lengths on the frame-count boundaries (whole and half multiples of the shift, +-1) are now generated on purpose. `Cxx_en` is round 5, whose brief asked the agent to list the phrases of the statement that no earlier change had touched and to break one of those (25 seeds, 11 first missed - the highest miss rate since round 1, so the steer worked). `Cxx_fn` is round 6 (28 seeds, 11 first missed): the brief asked for cooperating edits, reordered operations, 'equivalent' library calls that differ on ties / empty input, text handling, path forms, aliased results. `Cxx_gn` is round 7 (28 seeds, 10 first missed), whose single theme was the *range* of what a statement quantifies over: unusual but valid dtypes, axis positions, counts, rates, filter orders, file types. `Cxx_hn` is round 8 (21 seeds, 14 first missed - the highest rate of all rounds), with two themes: a change that is right on the main route and wrong on an *alternative route* to the same behaviour (alias, mapping, half=True, in_place, scripted module, compressed stream), and *the third call* (right for every pair of operations, wrong for one order of three). `Cxx_in` is round 9 (12 agents, 12 seeds, 10 first missed): the brief described a harness that already varies everything in the lessons below and asked what it would still not look at. `Cxx_jn` is round 10 (the eight properties left out of round 9, same brief: 8 seeds, 4 first missed).
 
 | seed | change | first quick run | strengthening |
 |------|--------|-----------------|---------------|
@@ -234,13 +234,18 @@ before use, flags arrive as 0 / 1 / numpy booleans, public coefficients are assi
 object filters the same shape along another axis first (C15); (xxx) inputs every generator would call pointless or absurd:
 8193 channels (one frame wider than the read size), dot-files named exactly '.npy', one archive shared by all utterances
 of a map, a suffix removed from the configurable soundfile set, statistics files memory-mapped through the documented
-keyword pass-through. Two seeds of earlier rounds that were caught only at some VERIF_SEED values got their killing case
-added to the replay corpus (corpus/C06/low_order_gammatone_many_periods.json, corpus/C16/constant_coefficient_raw_file.json).
+keyword pass-through. Round 10 added: an abstract family root in the alias forests and a winner that rejects the caller's
+arguments (C08), a top edge inside the 1 Hz leeway above Nyquist (C06), signals tracked by autograd (C14), peak 0 (C20).
+Two seeds of earlier rounds that were caught only at some VERIF_SEED values got their killing case
+added to the replay corpus (corpus/C06/low_order_gammatone_many_periods.json, corpus/C16/constant_coefficient_raw_file.json); three more
+(seeded C03_e1 with the hand mutant magnitude_via_squares, C05_f1, C07_2) followed when a last three-seed run of the trimmed quick tiers
+missed them at VERIF_SEED 2 (corpus/C03/huge_samples_magnitude_mode.json, corpus/C05/gain_after_scribbled_earlier_result.json,
+corpus/C07/seed_C07_2_killing_case.json).
 
 ### 7.6 What the record above does and does not show
 
-Every round of independent seeding still produced changes the quick tier of that moment missed (10 of 12 in the last
-round): the miss rate did not fall, because every brief steered the agents away from what was already covered. What the
+Every round of independent seeding still produced changes the quick tier of that moment missed (10 of 12 and 4 of 8 in the last two
+rounds): the miss rate did not fall, because every brief steered the agents away from what was already covered. What the
 numbers show is that the generators now cover every kind of trigger nine rounds of adversarial authors could think of, and
 that all ''' + str(total) + ''' filed changes are caught (at VERIF_SEED 1, 2 and 3 for the rounds filed before the last full
 regression); they do not show that the next plausible change will be caught. Generated-input search never establishes
